@@ -4,7 +4,7 @@ from checks import yangstrcomp, c10gen, yincomp
 from vlib import paths
 from vlib.proto import hexs, unhex
 
-LEAN_TARGETS = ["LyModel.Props.C10"]
+LEAN_TARGETS = ["LyModel.Props.C10", "LyModel.Props.C10Yin"]
 AUDIT = "Audit/C10.lean"
 GENERATED = ["YangStr", "YinArgs"]
 ASSUMPTIONS = [
@@ -14,7 +14,7 @@ ASSUMPTIONS = [
     "single-line ypr_text statements carry YANG keywords (where the lexer's column counter is exact); extension keywords over-count it",
     "api_schema runs with detect_leaks=0: a failed YIN parse leaks parsed statements (reported to the owner of F21)",
 ]
-TRUSTED = ["harness/wb_yang.c and harness/api_schema.c", "tools/extractors/yangstr.py (escape switches, is_yangutf8char ranges, keyword trie, constants)",
+TRUSTED = ["harness/wb_yang.c, harness/wb_yin.c and harness/api_schema.c", "tools/extractors/yin.py (lys_stmt_str/arg/flags, yin_parse_extension_instance_arg switch, yin_match_argument_name, xml.h character classes)", "tools/extractors/yangstr.py (escape switches, is_yangutf8char ranges, keyword trie, constants)",
            "classification predicates in tools/checks/c10.py and tools/checks/yangstrcomp.py"]
 
 API = "api_schema"
